@@ -406,13 +406,39 @@ def c11(run):
                 "Returns, Quiesces with Close exactly once, lexer exits, <= 2 reads after a lexical failure, read error preferred (R=2 quick, 3 thorough). "
                 "GEN: every script of <= 3 reads with the set of return classes over all schedules (a single class for each: the design is outcome-deterministic; quick runs all scripts of <= 2 reads and a seeded thirtieth of the 3-read ones); the real ParseFile / InterpretFile / UnmarshalFile run on a FileInput playing the "
                 "script, with and without jitter at the hook points: must return within the watchdog with a class the model allows, Close exactly once at quiescence, "
-                "no goroutine of package bcl left, <= 3 reads after the failure. Non-trivial = scripts of >= 2 reads; distinct by script.")
-    run.assumptions += ["bounded time on the real code is a 3 s watchdog, not a proof", "schedules of the real goroutines are sampled (jitter at hook points), not enumerated"]
+                "no goroutine of package bcl left, <= 3 reads after the failure. "
+                "STEERED SCHEDULES: Gen_Sched = BclPipeline with a history of the actions taken; seeded simulated behaviours (scripts of <= 3 reads, token channel of the real capacity) are "
+                "stepped through the real goroutines, which the blocking hook sink holds at their hook points and releases in the order of the behaviour: return class, number of reads, "
+                "reads after the lexical failure and Close count must equal what the model has for that very schedule; the per-goroutine logs of those runs are validated by Trace_Pipe. "
+                "Non-trivial = scripts of >= 2 reads (schedules: and >= 12 steps); distinct by script / by schedule.")
+    run.assumptions += ["bounded time on the real code is a 3 s watchdog, not a proof", "schedules of the real goroutines are sampled (jitter at the hook points) or steered along simulated model behaviours, not enumerated",
+                        "a steered goroutine stops only at hook points; between two of them it runs freely (one model token = two real tokens; the parser's receive is seen after it happened)"]
     mc_pipeline(run, 2 if run.quick else 3, 2)
     c = "SPECIFICATION Spec\nCONSTANTS MaxReads = 3  TokBuf = 2  EmptyIsEOF = FALSE\nINVARIANT Emit\nCHECK_DEADLOCK FALSE\n"
     run.gen_replay("Gen_Pipe", c, ["replay-pipe", "--reps", "6" if run.quick else "12", "--seed", str(run.seed), "--stride", "30" if run.quick else "2"], "C11:scripts", workers=8)
     tv_pipe(run, "C11:tv", 60 if run.quick else 400, ("CloseAtMostOnce",))
+    sched(run, "C11:sched", 6000 if run.quick else 150000, ("CloseAtMostOnce",))
     run.exhaustive = True
+
+
+def sched(run, stage, n, invariants, depth=90):
+    """Steered schedules: behaviours of BclPipeline *with their interleaving* (Gen_Sched, simulated) are stepped through the real
+    goroutines held at their hook points; the outcome per schedule is exact. The logs of the first steered ParseFile runs are
+    then validated by Trace_Pipe (which knows nothing of the schedule that produced them)."""
+    import os
+    tr = os.path.join(run.scratch, stage.replace(":", "_") + ".ndjson")
+    c = "SPECIFICATION SSpec\nCONSTANTS MaxReads = 3  TokBuf = 5  EmptyIsEOF = FALSE\nINVARIANT Emit\nCHECK_DEADLOCK FALSE\n"
+    r, s = run.gen_replay("Gen_Sched", c, ["replay-sched", "--tvout", tr, "--tvmax", "300" if run.quick else "3000"], stage,
+                          simulate=10 ** 9, depth=depth, workers=1, max_cases=n)
+    ex = s.get("extra") or {}
+    for k in ("steered", "steering_lost", "hook_points_steered"):
+        run.extra["schedules_" + k] = run.extra.get("schedules_" + k, 0) + ex.get(k, 0)
+    nt = ex.get("tv_traces", 0)
+    if nt:
+        ok = run.tv("Trace_Pipe", {}, tr, stage + ":tlc", nt, invariants=invariants, timeout=1800)
+        if ok:
+            run.extra["pipeline_events_validated"] = run.extra.get("pipeline_events_validated", 0) + ex.get("events", 0)
+    return s
 
 
 def tv_pipe(run, stage, n, invariants, race=False, seed_off=0):
@@ -435,13 +461,16 @@ def c12(run):
                 "reads and data+EOF, read errors, model scripts; half of them with jitter at the hook points) recorded per goroutine; Trace_Pipe accepts each as a behaviour "
                 "of the pipeline and recomputes happens-before from the recorded channel operations and critical sections: no unordered write/read of the line table. "
                 "OTHER OBSERVER: the same drivers and N concurrent callers (different inputs; one shared Prog) run from a -race build; any race-detector report with a frame "
-                "of package bcl is a violation, and concurrent results must equal the sequential ones. Non-trivial = executions with >= 3 reads / every concurrent call.")
+                "of package bcl is a violation, and concurrent results must equal the sequential ones. Steered schedules (Gen_Sched behaviours stepped through the real goroutines held at "
+                "their hook points) add executions whose interleaving is chosen by TLC; their logs go through the same Trace_Pipe NoRace computation. "
+                "Non-trivial = executions with >= 3 reads / every concurrent call.")
     run.assumptions += ["memory other than the instrumented line table is watched by the Go race detector, an external observer (level 'other' for that part)",
                         "goroutine schedules of the real code are sampled, not enumerated"]
     run.mc("MC_Race", cfg(constants=dict(Chunks=3, TokPerChunk=2, TokBuf=2, Guarded=True), invariants=("NoRace",)), label="MC_Race(guarded)")
     q = run.quick
     tv_pipe(run, "C12:hb", 60 if q else 400, ("NoRace", "CloseAtMostOnce"))
     tv_pipe(run, "C12:racedet", 60 if q else 300, ("CloseAtMostOnce",), race=True, seed_off=1)
+    sched(run, "C12:sched", 3000 if q else 40000, ("NoRace", "CloseAtMostOnce"))
     run.vh(["drive-conc", "--n", "8", "--rounds", "15" if q else "120", "--seed", str(run.seed)], "C12:callers", race=True)
     run.exhaustive = False
 
